@@ -49,6 +49,12 @@ impl Syms {
                 continue;
             }
             if d == "S" { for a in &arenas { a.seal(); } continue; }
+            //   X=<addr>/<pages>  somebody else's code pages at a chosen address (e.g. exactly where the allocator's first hints point)
+            if let Some(v) = d.strip_prefix("X=") {
+                let t: Vec<u64> = v.split('/').map(|x| u64::from_str_radix(x, 16).unwrap()).collect();
+                for i in 0..t[1] { map_foreign(t[0] + 4096 * i); }
+                continue;
+            }
             if let Some(v) = d.strip_prefix("W=") {
                 let t: Vec<u64> = v.split('/').map(|x| u64::from_str_radix(x, 16).unwrap()).collect();
                 arena::reserve_window(t[0], t[1], if t[2] == 0 { None } else { Some(t[2]) });
@@ -164,7 +170,8 @@ fn do_op(inj: &mut InjectorPP, syms: &Syms, op: &str) -> String {
         }
         "T" => {
             let tf: F1 = unsafe { std::mem::transmute(syms.addr[t[1]] as *const ()) };
-            inj.when_called(injectorpp::func!(fn (tf)(u64) -> u64)).will_execute(site(t[2].parse().unwrap()));
+            let pair = match t[2].strip_prefix('@') { Some(slot) => STASH.lock().unwrap().get_mut(slot).and_then(|p| p.take()).expect("empty slot"), None => site(t[2].parse().unwrap()) };
+            inj.when_called(injectorpp::func!(fn (tf)(u64) -> u64)).will_execute(pair);
             "installed".into()
         }
         "NOMEM" => {
@@ -221,6 +228,10 @@ fn map_over_last_released() -> bool {
     let mut last = None;
     for i in 0..interpose::len() { let e = interpose::get(i); if e.kind == b'U' { last = Some(e.a & !0xfff); } }
     let Some(page) = last else { return false };
+    map_foreign(page)
+}
+/// a code page that belongs to SOMEBODY ELSE (never named, never the injector's): mapped by the harness, watched at every boundary
+pub fn map_foreign(page: u64) -> bool {
     unsafe {
         let p = interpose::raw_mmap(page as *mut libc::c_void, 4096, libc::PROT_READ | libc::PROT_WRITE, libc::MAP_PRIVATE | libc::MAP_ANONYMOUS, -1, 0);
         if p == libc::MAP_FAILED { return false; }
@@ -232,6 +243,12 @@ fn map_over_last_released() -> bool {
     }
     true
 }
+struct SendPair(Option<(FuncPtr, CallCountVerifier)>);
+unsafe impl Send for SendPair {}
+impl SendPair { fn take(&mut self) -> Option<(FuncPtr, CallCountVerifier)> { self.0.take() } }
+struct Stash(std::sync::Mutex<std::collections::HashMap<String, SendPair>>);
+impl Stash { fn lock(&self) -> std::sync::LockResult<std::sync::MutexGuard<'_, std::collections::HashMap<String, SendPair>>> { self.0.lock() } }
+static STASH: std::sync::LazyLock<Stash> = std::sync::LazyLock::new(|| Stash(std::sync::Mutex::new(std::collections::HashMap::new())));
 pub static NOVALS: std::sync::atomic::AtomicBool = std::sync::atomic::AtomicBool::new(false);
 fn boundary(out: &mut String, id: &str, tag: &str, res: &str, ev_from: &mut usize, syms: &Syms, snap: &util::ExecSnapshot, with_diff: bool) {
     let n = interpose::len();
@@ -298,9 +315,18 @@ pub fn run_history(line: &str, with_diff: bool) -> String {
             // a thread that is ALREADY waiting for the guard while this lifetime runs (and possibly unwinds)
             std::thread::spawn(move || { let i = InjectorPP::new(); drop(i); let _ = wtx.send(()); });
             std::thread::sleep(std::time::Duration::from_micros(200));
-            for (oi, op) in ops.iter().enumerate() {
+            let mut oi = 0;
+            for op in ops.iter() {
+                // E:<slot>:<k> — the fake!(.., times: N) expression of call site k is EVALUATED now and the pair put aside (a fixture that prepares
+                // its fakes up front); T:<t>:@<slot> installs it later.  Evaluating is not an operation of the injector: no boundary, no index.
+                if let Some(rest) = op.strip_prefix("E:") {
+                    let (slot, k) = rest.split_once(':').unwrap();
+                    STASH.lock().unwrap().insert(slot.to_string(), SendPair(Some(site(k.parse().unwrap()))));
+                    continue;
+                }
                 let res = do_op(&mut inj, &syms, op);
                 boundary(&mut body_out, id, &format!("L{li} OP{oi}"), &res, &mut ev_from, &syms, &snap, with_diff);
+                oi += 1;
             }
             drop(inj);
         })); });
